@@ -97,7 +97,14 @@ Fixpoint mmon (now : Z) (hs : list hmon) (lastop : list (nat * Z)) (ls : list sx
           let x0 := hmget hs h in
           (* Unlock by an unexpired current holder succeeds *)
           let bad := hm_unexpired now x0 && negb (Z.eqb code 0) && negb (Z.eqb code 1) in
-          let hs' := if Z.eqb code 0 then hmset hs h {| hm_holds := false; hm_since := hm_since x0; hm_ttl := hm_ttl x0; hm_ident := hm_ident x0; hm_acq := hm_acq x0 |} else hs in
+          (* a successful Unlock frees the key: the handle stops holding, and so does every handle that holds
+             through the same non-empty reentrant identity (they are one holder of the key, which is now free;
+             a later Unlock through one of them finds it already unlocked, like a second Unlock) *)
+          let drop (y : hmon) := {| hm_holds := false; hm_since := hm_since y; hm_ttl := hm_ttl y; hm_ident := hm_ident y; hm_acq := hm_acq y |} in
+          let hs' := if Z.eqb code 0
+                     then map (fun y => if negb (Z.eqb (hm_ident x0) 0) && Z.eqb (hm_ident y) (hm_ident x0) then drop y else y)
+                              (hmset hs h (drop x0))
+                     else hs in
           (if bad then [(idx, 4)] else []) ++ mmon now hs' lastop r (idx + 1)
       | _ => mmon now hs lastop r (idx + 1)
       end
